@@ -598,6 +598,23 @@ impl<'a> Exec<'a> {
     fn abs(&self, rel: &str) -> PathBuf {
         self.root.join(rel)
     }
+    /// another spelling of the output directory `w/NAME` for the command line: as it is, with `./`, through a
+    /// `..` component, through a symbolic link to the scratch root, absolute — the same directory every time
+    fn spell_out(&mut self, dir: &str) -> String {
+        let k = self.rng.below(6);
+        self.rep.count(&format!("out-dir-spelling:{k}"));
+        match k {
+            0 | 1 => dir.to_string(),
+            2 => format!("./{dir}"),
+            3 => format!("w/../{dir}"),
+            4 => {
+                let l = self.root.join("olnk");
+                if std::fs::symlink_metadata(&l).is_err() { let _ = std::os::unix::fs::symlink(".", &l); }
+                format!("olnk/{dir}")
+            }
+            _ => format!("{}/{dir}", self.root_s),
+        }
+    }
     fn arch_path(&self, st: &Stage) -> String {
         if st.abs_out { format!("{}/w/{}", self.root_s, st.out) } else { format!("w/{}", st.out) }
     }
@@ -1102,7 +1119,8 @@ impl<'a> Exec<'a> {
         {
             let dir = self.fresh("ex-all-");
             let mut args = self.base("extract", st);
-            args.extend([s("-o"), dir.clone()]);
+            let spelled = self.spell_out(&dir);
+            args.extend([s("-o"), spelled]);
             let out = self.run(&args);
             if !out.ok() {
                 return Err(self.viol("extract-whole", json!({"what": "extract-whole-failed"}), format!("`extract` of the whole archive: exit {} {}", out.code, out.stderr_excerpt()), &args, Some(&out)));
@@ -1153,7 +1171,8 @@ impl<'a> Exec<'a> {
         for k in picks {
             let dir = self.fresh("ex-one-");
             let mut args = self.base("extract", st);
-            args.extend([s("-o"), dir.clone(), names[k].0.clone()]);
+            let spelled = self.spell_out(&dir);
+            args.extend([s("-o"), spelled, names[k].0.clone()]);
             let out = self.run(&args);
             if !out.ok() {
                 return Err(self.viol("extract-listed", json!({"what": "extract-listed-failed"}), format!("`extract NAME`: exit {} {}", out.code, out.stderr_excerpt()), &args, Some(&out)));
@@ -1168,7 +1187,8 @@ impl<'a> Exec<'a> {
             let (pat, matching) = self.gen_pattern();
             let dir = self.fresh("ex-glob-");
             let mut args = self.base("extract", st);
-            args.extend([s("-o"), dir.clone(), s("-g"), pat.clone()]);
+            let spelled = self.spell_out(&dir);
+            args.extend([s("-o"), spelled, s("-g"), pat.clone()]);
             let out = self.run(&args);
             if !out.ok() {
                 return Err(self.viol("extract-glob", json!({"what": "extract-glob-failed"}), format!("`extract -g {pat:?}`: exit {} {}", out.code, out.stderr_excerpt()), &args, Some(&out)));
